@@ -358,9 +358,9 @@ for _pid in ("C09", "C16"):
 # its own. -Zmiri-deterministic-floats: the interpreter otherwise perturbs every cos() by a random
 # ulp, and the monitors compare a Window's values across calls bit for bit.
 PROPS["C20"]["stages"].append({"name": "miri32", "build": "miri32", "bin": "c20", "shards": {"quick": 8, "thorough": 16}, "miriflags": "-Zmiri-deterministic-floats", "timeout": {"quick": 1500, "thorough": 3600}})
-# C05 (adaptor trees: delay lengths, take counts, exhaustion bookkeeping in usize): a lean 32-bit stage
-# (the same for C04 was tried and withdrawn: one shard did not finish within 15 minutes, see DESIGN 14)
-for _pid, _bin in (("C05", "c05"),):
+# Lean 32-bit stages for C04 / C05 (adaptor trees) exist in c04.rs / c05.rs but were withdrawn: in each, one
+# interpreter shard did not finish within a quarter of an hour (see DESIGN 14)
+for _pid, _bin in ():
     PROPS[_pid]["stages"].append({"name": "miri32", "build": "miri32", "bin": _bin, "shards": {"quick": 8, "thorough": 16}, "timeout": {"quick": 1500, "thorough": 3600}})
 for _pid, _p in PROPS.items():
     if not any(s["build"] == "release" for s in _p["stages"]):
@@ -398,7 +398,6 @@ _M32 = {
     "C15": " A 32-bit build of dasp is executed too (Miri, i686 target): construction / From on boundary and out-of-range backing values and the operators on a 14 x 14 (quick) / 38 x 38 (thorough) value set, all eight types.",
 }
 _M32["C20"] = " A 32-bit build of dasp is executed too (Miri, i686 target): every (L, bin, hop) with L <= 6 (quick) / 9 (thorough), hops around the 8/16/24/31-bit boundaries and the top of the 32-bit range, short Window iterators."
-_M32["C05"] = " A 32-bit build of dasp is executed too (Miri, i686 target): iterator-backed signals of 0..=4 frames, single adaptors over leaves of lengths 0, 1, 3, 6 (thinned), a few random trees."
 for _pid in ("C03", "C06", "C09", "C10", "C12", "C14", "C16"):
     _M32[_pid] = " The interpreter stage runs a second time as a 32-bit build of dasp (Miri, i686 target)."
 _W32 = {
